@@ -1174,4 +1174,290 @@ Section GovProofs.
         apply negb_true_iff in Hy2. apply orb_false_iff in Hy2. destruct Hy2 as [_ Hy2]. rewrite Hy1, Hy2. reflexivity. }
     lia.
   Qed.
+
+  (** * The judge's boolean clauses: reflection, and the proved ones hold on every step of the
+        repaired model *)
+
+  Lemma forallb_combine {A B} (f : A * B -> bool) (l1 : list A) (l2 : list B) :
+    forallb f (combine l1 l2) = true <->
+    (forall i x y, nth_error l1 i = Some x -> nth_error l2 i = Some y -> f (x, y) = true).
+  Proof.
+    revert l2. induction l1 as [|a t IH]; intros [|b t2]; simpl.
+    - split; [intros _ [|i] x y H; discriminate | reflexivity].
+    - split; [intros _ [|i] x y H; discriminate | reflexivity].
+    - split; [intros _ [|i] x y H1 H2; discriminate | reflexivity].
+    - rewrite andb_true_iff, IH. split.
+      + intros [H1 H2] [|i] x y Hx Hy; simpl in *; [inversion Hx; inversion Hy; subst; exact H1 | eapply H2; eauto].
+      + intro H. split; [apply (H 0%nat); reflexivity | intros i x y Hx Hy; apply (H (S i)); assumption].
+  Qed.
+
+  Lemma ballots_incl_app l l0 : ballots_incl l (l0 ++ l) = true.
+  Proof.
+    unfold ballots_incl. apply forallb_forall. intros [v b] Hin. apply existsb_exists. exists (v, b).
+    split; [apply in_or_app; right; exact Hin|]. simpl. rewrite N.eqb_refl. destruct b; reflexivity.
+  Qed.
+
+  Lemma ballots_incl_refl l : ballots_incl l l = true.
+  Proof. apply (ballots_incl_app l []). Qed.
+
+  Lemma final_same_eqb (p q : proposal) : final_same p q -> final_eqb p q = true.
+  Proof.
+    intros [a1 [a2 [a3 [a4 [a5 [a6 _]]]]]]. unfold final_eqb. rewrite a1, a2, a3, a4, a5, a6.
+    rewrite !N.eqb_refl, !ballots_incl_refl. simpl. destruct (p_super p); reflexivity.
+  Qed.
+
+  (** what [final_eqb] says *)
+  Lemma final_eqb_P (p q : proposal) :
+    final_eqb p q = true ->
+    p_status p = p_status q /\ p_reason p = p_reason q /\ p_approve p = p_approve q /\ p_reject p = p_reject q /\
+    p_super p = p_super q /\
+    (forall v b, In (v, b) (p_ballots p) <-> In (v, b) (p_ballots q)).
+  Proof.
+    unfold final_eqb. intro H. repeat (apply andb_true_iff in H; destruct H as [H ?]).
+    repeat (split; [apply N.eqb_eq; assumption|]).
+    split; [apply Bool.eqb_prop; assumption|].
+    assert (forall l1 l2 v b, ballots_incl l1 l2 = true -> In (v, b) l1 -> In (v, b) l2) as Hi.
+    { intros l1 l2 v b Hb Hin. unfold ballots_incl in Hb. rewrite forallb_forall in Hb. specialize (Hb _ Hin).
+      apply existsb_exists in Hb. destruct Hb as [[v' b'] [Hin' Hc]]. simpl in Hc. apply andb_true_iff in Hc.
+      destruct Hc as [Hc1 Hc2]. apply N.eqb_eq in Hc1. apply Bool.eqb_prop in Hc2. subst. exact Hin'. }
+    intros v b. split; intro Hin; eapply Hi; eauto.
+  Qed.
+
+  Lemma step_ok_zero accts nodes (a : state) o rc (b : state) :
+    step_ok E_eqb sem accts nodes a o rc b = 0 <->
+    cl_final a b = true /\ cl_tally b = true /\ cl_ballots a b = true /\ cl_approved sem b = true /\
+    cl_rejected sem a b = true /\ cl_special b = true /\ cl_refusal E_eqb accts nodes a o rc b = true /\
+    cl_object accts nodes a b = true /\ cl_header E_eqb a b = true /\ cl_avail a b = true.
+  Proof.
+    unfold step_ok.
+    destruct (cl_final a b), (cl_tally b), (cl_ballots a b), (cl_approved sem b), (cl_rejected sem a b),
+             (cl_special b), (cl_refusal E_eqb accts nodes a o rc b), (cl_object accts nodes a b),
+             (cl_header E_eqb a b), (cl_avail a b); simpl; split; intro H; try discriminate; try tauto;
+      repeat match goal with H : _ /\ _ |- _ => destruct H end; try discriminate.
+  Qed.
+
+  Fixpoint trace_P accts nodes (a : state) (tr : list (op * N * state)) : Prop :=
+    match tr with
+    | [] => True
+    | (o, rc, b) :: t => step_ok E_eqb sem accts nodes a o rc b = 0 /\ trace_P accts nodes b t
+    end.
+
+  Lemma step_ok_small accts nodes (a : state) o rc (b : state) : step_ok E_eqb sem accts nodes a o rc b <= 10.
+  Proof.
+    unfold step_ok.
+    repeat match goal with |- context[if ?c then _ else _] => destruct c end; lia.
+  Qed.
+
+  Lemma trace_ok_spec accts nodes tr : forall (a : state) k,
+    trace_ok E_eqb sem accts nodes a tr k = 0 <-> trace_P accts nodes a tr.
+  Proof.
+    induction tr as [|[[o rc] b] t IH]; intros a k; simpl; [tauto|].
+    destruct (step_ok E_eqb sem accts nodes a o rc b =? 0) eqn:Ec.
+    - apply N.eqb_eq in Ec. rewrite IH. tauto.
+    - apply N.eqb_neq in Ec. split; [intro H; lia | intros [H _]; congruence].
+  Qed.
+
+  Lemma obs_list_self (l : list (N * N)) :
+    forallb (fun e : N * N => existsb (fun f : N * N => (fst e =? fst f) && (snd e =? snd f)) l) l = true.
+  Proof.
+    apply forallb_forall. intros e He. apply existsb_exists. exists e. split; [exact He|]. rewrite !N.eqb_refl. reflexivity.
+  Qed.
+
+  Lemma hdr_eqb_refl (h : @phdr E) : hdr_eqb E_eqb h h = true.
+  Proof.
+    unfold hdr_eqb. rewrite !N.eqb_refl, obs_list_self, Nat.eqb_refl, E_eqb_refl. unfold seqb. rewrite !String.eqb_refl.
+    destruct (h_special h), (h_zero h), (h_lock h) as [l|]; simpl; try rewrite Nat.eqb_refl; reflexivity.
+  Qed.
+
+  Lemma obs_eqb_refl accts nodes (a : state) : obs_eqb E_eqb accts nodes a a = true.
+  Proof.
+    unfold obs_eqb.
+    assert (forallb (fun pq : proposal * proposal => obs_prop_eqb E_eqb (fst pq) (snd pq)) (combine (s_props a) (s_props a)) = true) as H1.
+    { apply forallb_combine. intros i x y Hx Hy. rewrite Hx in Hy. inversion Hy; subst. cbn [fst snd].
+      unfold obs_prop_eqb. rewrite hdr_eqb_refl, !N.eqb_refl.
+      rewrite (final_same_eqb y y); [reflexivity|]. unfold final_same. repeat split; reflexivity. }
+    assert (forallb (fun x : N => role_code_eqb (role_of a x) (role_of a x)) accts = true) as H2.
+    { apply forallb_forall. intros x _. destruct (role_of a x) as [[s w]|]; cbn [role_code_eqb]; [|reflexivity].
+      unfold seqb. rewrite String.eqb_refl, N.eqb_refl. reflexivity. }
+    assert (forallb (fun x : N => option_eqb seqb (node_of a x) (node_of a x)) nodes = true) as H3.
+    { apply forallb_forall. intros x _. destruct (node_of a x) as [s|]; cbn [option_eqb]; [|reflexivity]. apply String.eqb_refl. }
+    assert (forallb (fun m : N => match strat_of a m, strat_of a m with
+                      | Some (z1, e1, s1), Some (z2, e2, s2) => Bool.eqb z1 z2 && E_eqb e1 e2 && seqb s1 s2
+                      | None, None => true
+                      | _, _ => false end) [0; 1; 2] = true) as H4.
+    { apply forallb_forall. intros m _. destruct (strat_of a m) as [[[z e] s]|]; [|reflexivity].
+      unfold seqb. rewrite E_eqb_refl, String.eqb_refl. destruct z; reflexivity. }
+    rewrite Nat.eqb_refl, H1, H2, H3, H4. reflexivity.
+  Qed.
+
+  Theorem core_clauses_hold accts nodes (st : state) o :
+    reach st ->
+    let r := step E_eqb sem e_default cfg_fixed st o in
+    cl_final st (fst r) = true /\ cl_tally (fst r) = true /\ cl_ballots st (fst r) = true /\
+    cl_approved sem (fst r) = true /\ cl_special (fst r) = true /\
+    cl_refusal E_eqb accts nodes st o (snd r) (fst r) = true.
+  Proof.
+    intros Hr r. pose proof (reach_sinv st Hr) as Hs.
+    destruct (step_opext st o Hs) as [[HI' _] [HL HB]].
+    assert (exists s n, step E_eqb sem e_default cfg_fixed st o = (s, n)) as [s1 [n1 Er]] by (destruct (step E_eqb sem e_default cfg_fixed st o); eauto).
+    unfold r. rewrite Er in *. cbn [fst snd] in *.
+    rewrite Forall_forall in HI'.
+    split; [|split; [|split; [|split; [|split]]]].
+    - unfold cl_final. apply andb_true_iff. split; [apply Nat.leb_le; exact HL|].
+      apply forallb_combine. intros i x y Hx Hy. cbn [fst snd]. destruct (HB i x Hx) as [q [Hq [_ c _]]].
+      unfold get_prop in Hq. rewrite Hq in Hy. inversion Hy; subst.
+      destruct (is_open x) eqn:Eo; [reflexivity|]. cbn [orb]. apply final_same_eqb. apply c. reflexivity.
+    - unfold cl_tally. apply forallb_forall. intros p Hp. apply (HI' p Hp).
+    - unfold cl_ballots. apply forallb_combine. intros i x y Hx Hy. cbn [fst snd]. destruct (HB i x Hx) as [q [Hq [_ _ [l [Hl _]]]]].
+      unfold get_prop in Hq. rewrite Hq in Hy. inversion Hy; subst. rewrite Hl. apply ballots_incl_app.
+    - unfold cl_approved. apply forallb_forall. intros p Hp. apply (HI' p Hp).
+    - unfold cl_special. apply forallb_forall. intros p Hp. apply (HI' p Hp).
+    - unfold cl_refusal. apply andb_true_iff. split.
+      + destruct (n1 =? 0) eqn:Erc; [reflexivity|]. cbn [orb]. apply N.eqb_neq in Erc.
+        rewrite (failed_tx_frame cfg_fixed st o n1 s1 Er Erc). apply obs_eqb_refl.
+      + destruct o; try reflexivity. destruct (vote_must_fail st c i b) eqn:Ev; [|reflexivity]. cbn [negb orb].
+        destruct (refusals_thm cfg_fixed st c i b Ev) as [rc [Hne Hst]]. rewrite Hst in Er. inversion Er; subst.
+        apply negb_true_iff. apply N.eqb_neq. exact Hne.
+  Qed.
+
+  Lemma reach_run_ops (st : state) os : reach st -> reach (run_ops st os).
+  Proof. revert st. induction os as [|o t IH]; intros st H; simpl; [exact H | apply IH; constructor; exact H]. Qed.
 End GovProofs.
+
+(** * Facts about the tables regenerated from governance.go / role.go (re-checked on every run) *)
+
+Lemma priority_facts :
+  prio gov_ev_logout = 3 /\ prio gov_ev_freeze = 2 /\ prio gov_ev_update = 2 /\ prio gov_ev_activate = 1 /\ prio gov_ev_register = 1 /\
+  prio "no such event" = 0.
+Proof. vm_compute. repeat split. Qed.
+
+(** a logout request pauses a pending freeze / activate proposal of the same object, never the converse *)
+Lemma lock_order_facts :
+  (prio gov_ev_freeze <? prio gov_ev_logout) = true /\ (prio gov_ev_activate <? prio gov_ev_logout) = true /\
+  (prio gov_ev_logout <? prio gov_ev_freeze) = false /\ (prio gov_ev_freeze <? prio gov_ev_freeze) = false.
+Proof. vm_compute. repeat split. Qed.
+
+(** every role_mgr and proposal_strategy_mgr proposal is special; of the node_mgr ones exactly logout *)
+Lemma special_facts :
+  (forall ev, is_special 0 ev = true) /\ (forall ev, is_special 2 ev = true) /\
+  is_special 1 gov_ev_register = false /\ is_special 1 gov_ev_logout = true /\
+  gov_special_events = [gov_ev_freeze; gov_ev_activate; gov_ev_logout] /\
+  gov_special_types = [gov_mod_role; gov_mod_strategy].
+Proof.
+  split; [intro ev; unfold is_special; replace (existsb (seqb (mod_name 0)) gov_special_types) with true by (vm_compute; reflexivity); reflexivity|].
+  split; [intro ev; unfold is_special; replace (existsb (seqb (mod_name 2)) gov_special_types) with true by (vm_compute; reflexivity); reflexivity|].
+  vm_compute. repeat split.
+Qed.
+
+Lemma availability_facts :
+  is_avail_status "available" = true /\ is_avail_status "freezing" = true /\
+  is_avail_status "frozen" = false /\ is_avail_status "activating" = false /\ is_avail_status "logouting" = false /\
+  is_avail_status "forbidden" = false /\ is_avail_status "registering" = false /\ is_avail_status "unavailable" = false /\
+  gov_super_weight = 2 /\ gov_normal_weight = 1.
+Proof. vm_compute. repeat split. Qed.
+
+(** * Witnesses: each listed defect violates the property on the faithful model, and the same
+      history is fine on the repaired model *)
+
+Definition w_pool : list bexp := [default_bexp; BCmp CEq NA (NConst (2#1))].
+Definition w_vote3 : list (N * (bool * N * string)) :=
+  [(0, (false, 0, gov_st_available)); (1, (false, 0, gov_st_available)); (2, (false, 0, gov_st_available))].
+Definition w_accts : list N := [0; 1; 2; 3; 4; 100; 200].
+Definition w_nodes : list N := [300].
+
+(** ZeroPermission by an outsider on a concluded zero-permission proposal runs Manage again:
+    the node under a pending logout proposal becomes forbidden without any vote (clause 8) *)
+Definition w_zero_strat : list (N * (bool * N * string)) :=
+  [(0, (false, 0, gov_st_available)); (1, (true, 0, gov_st_available)); (2, (true, 0, gov_st_available))].
+Definition w_zero_ops : list (@op N) :=
+  [ORegNode 0 300; OUpdStrategy 0 1 false 0; OLogoutNode 0 300; OZero 200 0%nat].
+Lemma zero_permission_refuted :
+  model_code w_pool w_accts w_nodes [2; 1; 1; 1] w_zero_strat 1 w_zero_ops = 3 * 16 + 8 /\
+  model_code w_pool w_accts w_nodes [2; 1; 1; 1] w_zero_strat 0 w_zero_ops = 0.
+Proof. split; vm_compute; reflexivity. Qed.
+
+(** an elector who voted and is then frozen is subtracted from AvailableElectorateNum although
+    his ballot still counts: fewer electors are counted than can still vote (clause 10) *)
+Definition w_voted_ops : list (@op N) :=
+  [ORegRole 0 100; OVote 1 0%nat 0; OFreeze 0 1; OVote 0 1%nat 1; OVote 2 1%nat 1; OVote 3 1%nat 1].
+Lemma avail_voted_refuted :
+  model_code w_pool w_accts w_nodes [2; 1; 1; 1] w_vote3 4 w_voted_ops = 5 * 16 + 10 /\
+  model_code w_pool w_accts w_nodes [2; 1; 1; 1] w_vote3 0 w_voted_ops = 0.
+Proof. split; vm_compute; reflexivity. Qed.
+
+(** with the special-proposal defect as well, the proposal is REJECTED there although the three
+    electors who have not voted could still approve it *)
+Lemma avail_voted_rejects_reachable :
+  model_code w_pool w_accts w_nodes [2; 1; 1; 1] w_vote3 12 w_voted_ops <> 0.
+Proof. vm_compute. discriminate. Qed.
+
+(** UpdateAvailableElectorateNum concludes a special proposal nobody of weight 2 voted on (clause 6) *)
+Definition w_special_ops : list (@op N) :=
+  [ORegRole 0 100; OVote 1 0%nat 1; OVote 2 0%nat 1; OVote 3 0%nat 1; OFreeze 0 4; OVote 0 1%nat 1; OVote 1 1%nat 1; OVote 2 1%nat 1].
+Lemma special_updavail_refuted :
+  model_code w_pool w_accts w_nodes [2; 1; 1; 1; 1] w_vote3 8 w_special_ops = 7 * 16 + 6 /\
+  model_code w_pool w_accts w_nodes [2; 1; 1; 1; 1] w_vote3 0 w_special_ops = 0.
+Proof. split; vm_compute; reflexivity. Qed.
+
+(** a withdrawn (rejected) proposal that was paused is re-opened when the higher-priority proposal
+    that paused it is rejected (clause 1) *)
+Definition w_unlock_ops : list (@op N) :=
+  [OFreeze 0 1; OLogout 0 1; OWithdraw 0 0%nat; OVote 0 1%nat 0; OVote 2 1%nat 0].
+Lemma unlock_closed_refuted :
+  model_code w_pool w_accts w_nodes [2; 1; 1; 1] w_vote3 16 w_unlock_ops = 4 * 16 + 1 /\
+  model_code w_pool w_accts w_nodes [2; 1; 1; 1] w_vote3 0 w_unlock_ops = 0.
+Proof. split; vm_compute; reflexivity. Qed.
+
+(** the hypothesis "monotone" of the rejection theorem is needed: with the admitted expression
+    [a == 2] the repaired model rejects after the first approval (clause 5) *)
+Definition w_nonmono_strat : list (N * (bool * N * string)) :=
+  [(0, (false, 1, gov_st_available)); (1, (false, 0, gov_st_available)); (2, (false, 0, gov_st_available))].
+Lemma nonmonotone_refuted_gov :
+  admitted (pool_sem w_pool 1) 4 = true /\
+  model_code w_pool w_accts w_nodes [2; 1; 1; 1] w_nonmono_strat 0 [ORegRole 0 100; OVote 0 0%nat 1] = 1 * 16 + 5.
+Proof. split; vm_compute; reflexivity. Qed.
+
+(** * Non-vacuity: reachable states in which the hypotheses of the theorems hold *)
+Definition w_sem := pool_sem w_pool.
+Definition w_init : @state N := init_state [2; 1; 1; 1] w_vote3.
+
+Example ex_approved_and_rejected :
+  let st := run_ops N.eqb w_sem 0 w_init
+              [ORegRole 0 100; OVote 1 0%nat 1; OVote 2 0%nat 1; OVote 0 0%nat 1;
+               ORegNode 0 300; OVote 1 1%nat 0; OVote 2 1%nat 0; OVote 0 0%nat 0; OVote 200 1%nat 1] in
+  reach N.eqb w_sem 0 st /\
+  exists p q, nth_error (s_props st) 0 = Some p /\ nth_error (s_props st) 1 = Some q /\
+    p_status p = ST_APPROVED /\ by_tally p = true /\ h_special (p_hdr p) = true /\ p_super p = true /\ p_manage p = [ST_APPROVED] /\
+    p_status q = ST_REJECTED /\ by_tally q = true /\ h_special (p_hdr q) = false /\ p_manage q = [ST_REJECTED] /\
+    role_of st 100 = Some (gov_st_available, 1) /\ node_of st 300 = Some gov_st_unavailable.
+Proof.
+  split; [apply reach_run_ops; constructor|]. vm_compute. eexists. eexists. repeat split.
+Qed.
+
+Example ex_default_expression_monotone : mono (w_sem 0).
+Proof.
+  unfold mono, w_sem, pool_sem, w_pool. cbn [nth N.to_nat]. intros a a' r r' t H1 H2 H.
+  unfold qsem, default_bexp in *. cbn [beval neval qcmp] in *.
+  apply negb_true_iff in H. apply negb_true_iff. unfold Qle_bool in *. cbn [Qmult Qnum Qden inject_Z f64N] in *.
+  apply Z.leb_gt in H. apply Z.leb_gt.
+  assert (round53 a <= round53 a') as Hm.
+  { unfold round53. destruct (a <? 9007199254740992) eqn:Ea, (a' <? 9007199254740992) eqn:Ea'; try lia.
+    - set (k := N.log2 a' - 52).
+      assert (9007199254740992 <= N.shiftl (N.shiftr a' k) k).
+      { rewrite N.shiftl_mul_pow2, N.shiftr_div_pow2.
+        assert (2 ^ 53 <= a') by (change (2 ^ 53) with 9007199254740992; lia).
+        assert (53 <= N.log2 a') by (apply N.log2_le_pow2; lia).
+        assert (2 ^ N.log2 a' <= a') by (apply N.log2_spec; lia).
+        replace (N.log2 a') with (52 + k) in H3 at 1 by (unfold k; lia). rewrite N.pow_add_r in H3.
+        assert (2 ^ 52 <= a' / 2 ^ k).
+        { apply N.div_le_lower_bound; [apply N.pow_nonzero; lia | lia]. }
+        change 9007199254740992 with (2 ^ 52 * 2). assert (2 <= 2 ^ k \/ k = 0) as [Hk|Hk].
+        { destruct (N.eq_dec k 0); [right; assumption | left]. change 2 with (2 ^ 1) at 1. apply N.pow_le_mono_r; lia. }
+        - nia.
+        - exfalso. unfold k in Hk. lia. }
+      destruct (N.shiftl 1 (k - 1) <? a' - N.shiftl (N.shiftr a' k) k);
+        [|destruct (a' - N.shiftl (N.shiftr a' k) k =? N.shiftl 1 (k - 1)); [destruct (N.even (N.shiftr a' k))|]];
+        rewrite ?N.shiftl_mul_pow2 in *; nia.
+    - exfalso; lia. }
+  lia.
+Qed.
